@@ -1069,6 +1069,48 @@ SPECS.append(dict(name="Main.write_all", group="Main2", file=MAINF, func="run", 
                   params=[("all_decrypted_sessions", "List (β × θ)")],
                   actions={"writer.writepkt(bytes(buf), ts)": "(buf, ts)"}, action_type="(β × θ)"))
 
+# quic_session.py set_tls_decryptors over a state record of its own (`QS3.St κ`: the three suite attributes, the two flags, the three
+# decryptor entries it writes, `self.keys`; κ = a key-log entry): the `match ciphersuite:` and everything after it as two definitions
+# (the rest, continued in each of the four cases, would be rendered four times). dev_quic_keys (group KeySched translates it on its
+# own) and the QuicDecryptor constructor are externals; the dict dev_quic_keys returns has `Option Bytes` values (the early entries).
+HSEL = "TLX.Quic.Session.HashSel"
+QS3_FIELDS = [("self.hash_fun", "hash_fun", f"Option {HSEL}"), ("self.cipher", "cipher", "Option TLX.Cipher.Alg"),
+              ("self.key_length", "key_length", "Option Nat"), ("self.can_decrypt", "can_decrypt", "Bool"),
+              ("self.early_traffic_keys", "early_traffic_keys", "Bool"),
+              ("self.decryptors['Handshake']", "dec_handshake", f"Option {QDEC}"),
+              ("self.decryptors['Application']", "dec_app", f"Option (List {QDEC})"),
+              ("self.decryptors['Early']", "dec_early", f"Option {QDEC}"),
+              ("self.keys", "keys", "Table Str; Option Bytes")]
+QS3_PLACES = [(k, f, t, "s") for k, f, t in QS3_FIELDS]
+GROUPS["QuicSess3"] = dict(imports=["TLX.PyRt", "TLX.Quic.Session"], decls=[], options=["set_option linter.unusedVariables false"])
+
+
+def qs3_state_decl():
+    return ("/-- the attributes of a `QuicSession` that `set_tls_decryptors` writes -/\nstructure QS3.St where\n"
+            + "".join(f"  {f} : {py2lean.ty(t)}\n" for _, f, t in QS3_FIELDS) + "  deriving DecidableEq, Repr\n")
+
+
+SPECS.append(dict(name="QS3.St", group="QuicSess3", kind="raw", file=QSF, func=None, gen=qs3_state_decl, theorem="QSess3.set_tls_decryptors_eq_model"))
+QS3_CONSTS = {"SHA256": (f"{HSEL}.sha256", HSEL), "SHA384": (f"{HSEL}.sha384", HSEL), "AESGCM": ("TLX.Cipher.Alg.aesgcm", "TLX.Cipher.Alg"),
+              "ChaCha20Poly1305": ("TLX.Cipher.Alg.chachaPoly", "TLX.Cipher.Alg"), "AESCCM": ("TLX.Cipher.Alg.aesccm", "TLX.Cipher.Alg")}
+SPECS.append(dict(name="QS3.select_suite", group="QuicSess3", file=QSF, func="QuicSession.set_tls_decryptors", theorem="QSess3.select_suite_eq_model",
+                  select={"start": "match ciphersuite:"}, params=[("ciphersuite", "Bytes")], exits=True,
+                  state=dict(type="QS3.St", param="st"), always_res=True, places=QS3_PLACES, consts=QS3_CONSTS))
+SPECS.append(dict(name="QS3.install", group="QuicSess3", file=QSF, func="QuicSession.set_tls_decryptors", theorem="QSess3.install_eq_model",
+                  select={"start": "session_keys = []", "end": "try:\n    self.decryptors['Early']"}, tparams=["κ"],
+                  params=[("client_random", "Bytes")], exits=True,
+                  state=dict(type="QS3.St", param="st"), always_res=True,
+                  places=QS3_PLACES + [("self.keylog", "keylog", "List κ", "r"), ("self.quic_version", "quic_version", QSV, "r")],
+                  locals={"session_keys": "List κ"},
+                  externals=[("key_random", "κ → Bytes"),
+                             ("dev_quic_keys", f"Option Nat → List κ → Option {HSEL} → {QSV} → Except PyRt.Err (List (List Nat × Option Bytes))"),
+                             ("mk_decryptor", f"List (Option Bytes) → Option TLX.Cipher.Alg → Bool → Except PyRt.Err {QDEC}")],
+                  consts={"bytes.fromhex(key.client_random)": ("(key_random key)", "Bytes"), "self.hash_fun()": ("{st}.hash_fun", f"Option {HSEL}")},
+                  calls={"dev_quic_keys": dict(lean="dev_quic_keys", args=["Option Nat", "List κ", f"Option {HSEL}", QSV],
+                                               ret="Table Str; Option Bytes", raises=True),
+                         "QuicDecryptor": dict(lean="mk_decryptor", params=["keys", "cipher", "early"],
+                                               args=["List (Option Bytes)", "Option TLX.Cipher.Alg", "Bool"], ret=QDEC, raises=True)}))
+
 THEOREMS = _uniq(theorem_of(s) for s in SPECS)
 
 
@@ -1090,7 +1132,7 @@ MODULES = group_modules(GROUPS)          # all groups (`TLX.Props.Translated` im
 # property → the groups whose translated functions its model functions are (what the check proves besides its own modules)
 CHECK_GROUPS = {
     "C01": ["TlsSess", "Suites", "TlsSess2", "Decrypt"],
-    "C02": ["QuicDissect", "QuicSess", "Pn", "Varint", "Frames", "QuicDissect2", "QuicTls", "QuicSess2"],
+    "C02": ["QuicDissect", "QuicSess", "Pn", "Varint", "Frames", "QuicDissect2", "QuicTls", "QuicSess2", "QuicSess3"],
     "C03": ["TlsSess", "QuicDissect", "Varint", "QuicDissect2", "TlsSess2", "QuicSess2"],
     "C04": ["Demux", "QuicSess", "QuicDissect", "Main2"],
     "C05": ["Reasm", "Reasm2"],
@@ -1102,7 +1144,7 @@ CHECK_GROUPS = {
     "C11": ["Checksum"],
     "C13": ["TlsSess", "TlsSess2"],
     "C14": ["Suites"],
-    "C15": ["KeySched"],
+    "C15": ["KeySched", "QuicSess3"],
     "C16": ["Pn", "QuicSess2"],
     "C17": ["Varint", "Frames"],
     "C18": ["Demux", "Main2"],
@@ -1891,6 +1933,74 @@ def _kl_cases(rng, call):
     return out
 
 
+def _qs3_cases(rng, call):
+    """QuicSession.set_tls_decryptors (group QuicSess3: the two translated parts composed as the method composes them) with a toy
+    dev_quic_keys (a dict with some entries missing / `None`, UnboundLocalError without session keys) and a toy QuicDecryptor"""
+    import importlib
+    qs = importlib.import_module("tlexport.quic.quic_session")
+    out = []
+    names = ["server_handshake_key", "server_handshake_iv", "client_handshake_key", "client_handshake_iv",
+             "server_application_key", "server_application_iv", "client_application_key", "client_application_iv",
+             "server_application_sec", "client_application_sec", "client_early_key", "client_early_iv"]
+    st = lambda x: "([" + ", ".join(str(ord(c)) for c in x) + "] : List Nat)"
+    ob = lambda x: "none" if x is None else f"(some {_b(x)})"
+    hsel = {qs.SHA256: "TLX.Quic.Session.HashSel.sha256", qs.SHA384: "TLX.Quic.Session.HashSel.sha384"}
+    algs = {qs.AESGCM: "TLX.Cipher.Alg.aesgcm", qs.ChaCha20Poly1305: "TLX.Cipher.Alg.chachaPoly", qs.AESCCM: "TLX.Cipher.Alg.aesccm"}
+    saved = (qs.dev_quic_keys, qs.QuicDecryptor)
+    try:
+        for _ in range(5):
+            d = {}
+            for n_ in names:
+                r = rng.random()
+                if r < 0.85:
+                    d[n_] = bytes([rng.randrange(256)])
+                elif r < 0.93:
+                    d[n_] = None
+            cr = bytes([rng.randrange(3)])
+            keylog = [types.SimpleNamespace(client_random=bytes([rng.randrange(3)]).hex()) for _ in range(rng.randint(0, 3))]
+            cs = rng.choice([b"\x13\x01", b"\x13\x02", b"\x13\x03", b"\x13\x04", b"\x13\x05", b"\x13"])
+            me = types.SimpleNamespace(hash_fun=None, cipher=None, key_length=None, can_decrypt=True, early_traffic_keys=False,
+                                       decryptors={}, keys={}, keylog=keylog, quic_version=None)
+
+            def toy_keys(kl, sk, h, v):
+                if not sk:
+                    raise UnboundLocalError("client_handshake_key")
+                return dict(d)
+
+            def toy_dec(ks, cipher, early):
+                if cipher is None or any(k_ is None for k_ in ks):
+                    raise TypeError("key")
+                return (b"".join(ks), early)
+            qs.dev_quic_keys, qs.QuicDecryptor = toy_keys, toy_dec
+            k, v = call(qs.QuicSession.set_tls_decryptors, me, cr, cs)
+            ld = "[" + ", ".join(f"({st(n_)}, {ob(x)})" for n_, x in d.items()) + "]"
+            lk = "[" + ", ".join(_b(bytes.fromhex(x.client_random)) for x in keylog) + "]"
+            g = lambda n_: me.decryptors.get(n_)
+            app = g("Application")
+            e1 = ("(" + ("none" if me.hash_fun is None else f"(some {hsel[me.hash_fun]})") + ", " + ("none" if me.cipher is None else f"(some {algs[me.cipher]})")
+                  + f", {'none' if me.key_length is None else f'(some {me.key_length})'}, {_bool(me.can_decrypt)}, {_bool(me.early_traffic_keys)}, "
+                  + f"PyRt.Err.{'fuel' if k == 'ok' else v})")
+            e2 = (f"({ob(g('Handshake')[0] if g('Handshake') else None)}, {ob(app[0][0] if app else None)}, {ob(g('Early')[0] if g('Early') else None)}, "
+                  + "[" + ", ".join(st(n_) for n_ in me.keys) + "], [" + ", ".join(ob(x) for x in me.keys.values()) + "])")
+            # (the comparison is split in two: instance search gives up on one long tuple)
+            out.append(("(fun cs cr kl d e1 (e2 : Option TLX.Bytes × Option TLX.Bytes × Option TLX.Bytes × List (List Nat) × List (Option TLX.Bytes)) => (fun (r : PyRt.Res QS3.St PyRt.Exit) => "
+                        "let t := match r with | PyRt.Res.ok _ t => t | PyRt.Res.raised _ t => t; "
+                        "let e := match r with | PyRt.Res.ok _ _ => PyRt.Err.fuel | PyRt.Res.raised e _ => e; "
+                        "decide ((t.hash_fun, t.cipher, t.key_length, t.can_decrypt, t.early_traffic_keys, e) = e1) && "
+                        "decide (t.dec_handshake.map (·.client.key) = e2.1) && decide ((t.dec_app.getD []).head?.map (·.client.key) = e2.2.1) && "
+                        "decide (t.dec_early.map (·.client.key) = e2.2.2.1) && decide (t.keys.map (·.1) = e2.2.2.2.1) && decide (t.keys.map (·.2) = e2.2.2.2.2)) "
+                        "(match QS3.select_suite cs ⟨none, none, none, true, false, none, none, none, []⟩ with "
+                        "| PyRt.Res.ok PyRt.Exit.fall st1 => QS3.install (κ := TLX.Bytes) (fun k => k) "
+                        "(fun _ sk _ _ => if sk.length > 0 then .ok d else .error .unbound) "
+                        "(fun ks alg early => match alg with | none => .error .type | some a => if ks.any (·.isNone) then .error .type else "
+                        ".ok { alg := a, server := if early then none else some ⟨[], []⟩, client := ⟨(ks.map (·.getD [])).flatten, []⟩ }) "
+                        "cr kl TLX.Quic.Session.Version.v1 st1 | r => r))",
+                        f"{_b(cs)} {_b(cr)} {lk} {ld} {e1} {e2}", "true"))
+    finally:
+        qs.dev_quic_keys, qs.QuicDecryptor = saved
+    return out
+
+
 def _qs_cases(rng, call):
     """QuicSession.decrypt_packet / handle_frame / handle_quic_packet (group QuicSess2) on a session made without `__init__`, with toy
     decryptors, a toy `parse_frames` and toy `check_key_epoch` / `get_full_packet_number` / `set_largest_packet_number` — the same
@@ -2470,6 +2580,7 @@ def _cases(rng, n):
         out.extend(_qs_cases(rng, call))
         out.extend(_main_cases(rng, call))
         out.extend(_kl_cases(rng, call))
+        out.extend(_qs3_cases(rng, call))
         for _ in range(2):
             out.extend(_bld_cases(rng, call))
         # output builders
